@@ -39,4 +39,6 @@ def spec_step(row, st0, instr, iset, oplen, mem=None, fix=None):
     it0 = ST.cpsr_field(st0['cpsr'], 'it')
     c1 = final['cpsr']
     final['cpsr'] = ite(bits(it0, 3, 0) != 0, ST.cpsr_with(c1, it=PSR.it_advance(ST.cpsr_field(c1, 'it'))), c1)
+    if exe.unkmask:
+        final['__unkmask__'] = {k: ite(passed, m, 0) for k, m in exe.unkmask.items()}
     return final, unpred, undef
